@@ -212,6 +212,19 @@ def handleInline (req : Json) : Except String Json := do
         var := ← parseSpace (← xj.getObjVal? "var")
         node := ← parseSpace (← xj.getObjVal? "node") }
       let r := if pinned then toOnnxPinned c p.graph else toOnnx c p.graph
+      match req.getObjVal? "adapt", r with
+      | .ok aj, .ok em =>
+        let varNames ← aj.getObjValAs? (List String) "varNames"
+        let imports ← aj.getObjValAs? (List Nat) "imports"
+        let target ← aj.getObjValAs? Nat "target"
+        let convJ := (aj.getObjVal? "converted").toOption.getD Json.null
+        let conv ← if convJ.isNull then pure p.graph else parseGraph convJ
+        out := out ++ [("adapt", match adaptInline (fun _ => conv) c varNames p.graph em.nodes imports target with
+          | .error e => errJson e
+          | .ok ns => Json.mkObj [("nodes", Json.arr (ns.map nodeJson).toArray),
+              ("converts", toJson (needsConversion (em.nodes.map fun n => n.op.domain) imports target))])]
+      | _, _ => pure ()
+      out := out ++ [("prefixFree", toJson (c.var.prefixFree c.nodeName && c.node.prefixFree c.nodeName))]
       out := out ++ [("emit", match r with
         | .error e => errJson e
         | .ok em => Json.mkObj [
